@@ -433,7 +433,7 @@ def thread_work(shard, tier, viols, counters, samples, keys, sets):
                 plans.append(plan)
         spec = {'seed': '%d:%s:%d' % (C.SEED, shard['name'], t), 'nthreads': n, 'plans': plans,
                 'yieldp': rng.choice((0.0, 0.01, 0.05, 0.2))}
-        with tempfile.NamedTemporaryFile('w', suffix='.json', delete=False, dir=os.path.join(C.VERIF, 'out', 'C13')) as f:
+        with tempfile.NamedTemporaryFile('w', suffix='.json', delete=False, dir=C.scratch_dir('C13')) as f:
             json.dump(spec, f)
             path = f.name
         env = dict(os.environ)
@@ -505,7 +505,7 @@ def thread_work(shard, tier, viols, counters, samples, keys, sets):
 
 
 def work(shard, tier):
-    os.makedirs(os.path.join(C.VERIF, 'out', 'C13'), exist_ok=True)
+    C.scratch_dir('C13')
     viols = {}
     counters = {'history_calls': 0, 'oracle_calls': 0, 'containers_mutated': 0, 'quiescent_invariant_checks': 0,
                 'oracle_errors': 0, 'thread_trials': 0, 'trials_with_overlapping_cold_loads': 0, 'overlapping_cold_loads': 0,
@@ -561,9 +561,9 @@ def replay(w):
         if not (a == b == c):
             add(viols, 'C13|%s.%s|pristine-results-differ-between-hash-seeds' % (s['module'], s['func']), '%r %r %r' % (a, b, c), w)
     else:
-        os.makedirs(os.path.join(C.VERIF, 'out', 'C13'), exist_ok=True)
+        C.scratch_dir('C13')
         for attempt in range(5):
-            with tempfile.NamedTemporaryFile('w', suffix='.json', delete=False, dir=os.path.join(C.VERIF, 'out', 'C13')) as f:
+            with tempfile.NamedTemporaryFile('w', suffix='.json', delete=False, dir=C.scratch_dir('C13')) as f:
                 json.dump(w['trial'], f)
                 path = f.name
             p = subprocess.run([PY, '-B', os.path.join(HERE, 'threadtrial.py'), path], stdout=subprocess.PIPE, stderr=subprocess.PIPE, timeout=600)
